@@ -27,5 +27,6 @@ Definition dispatch (u : Z) (a : sx) : sx :=
   | 18 => u_kemeny a
   | 19 => u_validate a
   | 20 => u_eliminate a
+  | 21 => u_convert a
   | _ => bad_input
   end.
